@@ -62,10 +62,19 @@ TProgs == <<
   << Let("W", Str("")), For("I", I(1), I(30), NoExpr, "auto", <<Do(Mem(V("W"), "concat", <<Str("ab")>>))>>), Forall("E", Call("tab", <<I(5), Str("q")>>), "auto", <<Let("W", Bin("+", V("W"), V("E")))>>),
      PrintS(<<Mem(V("W"), "count", <<>>)>>), Let("U", Call("tup", <<I(1), V("W")>>)), RaiseS("MYERR"), PrintS(<<Str("never")>>) >>,
   << Func("REC", <<"N">>, <<If(Bin("<=", V("N"), I(0)), <<Return(I(0))>>, <<>>), Return(Bin("+", I(1), UCall("REC", <<Bin("-", V("N"), I(1))>>)))>>),
-     PrintS(<<UCall("REC", <<I(100)>>)>>), Begin(<<PrintS(<<UCall("REC", <<I(300)>>)>>)>>, <<>>), PrintS(<<Str("unreached")>>) >>
+     PrintS(<<UCall("REC", <<I(100)>>)>>), Begin(<<PrintS(<<UCall("REC", <<I(300)>>)>>)>>, <<>>), PrintS(<<Str("unreached")>>) >>,
+  \* module objects shared by the clones (the object A exists before the clones are taken): every thread copies, stores,
+  \* drops references to the same object and calls it
+  << Let("B", V("A")), Let("T", Call("tab", <<I(3), V("A")>>)), Let("U", Call("tup", <<I(1), V("A")>>)), Let("B", NullC),
+     For("I", I(1), I(20), NoExpr, "auto", <<Let("C", Mem(V("T"), "at", <<I(0)>>)), Let("T", Call("tab", <<I(2), V("C")>>)), Let("C", NullC)>>),
+     PrintS(<<Mem(V("A"), "tag", <<>>), Mem(Mem(V("T"), "at", <<I(1)>>), "id", <<>>)>>), Let("T", NullC), Let("U", NullC) >>
 >>
+ObjPrelude == <<Let("A", OCtor(I(1)))>>
 TScenario(m, n, reps) ==
-  [prop |-> "C14", key |-> "T", steps |-> <<[op |-> "threads", ctx |-> 0, n |-> n, reps |-> reps, ast |-> TProgs[m], text |-> Render(TProgs[m])]>>]
+  [prop |-> "C14", key |-> "T",
+   steps |-> (IF m = 4 THEN << [op |-> "new", ctx |-> 0, trusted |-> TRUE], [op |-> "exec", ctx |-> 0, free |-> TRUE, text |-> "import vobj;"],
+                               [op |-> "new", ctx |-> 0, trusted |-> TRUE], [op |-> "exec", ctx |-> 0, ast |-> ObjPrelude, text |-> Render(ObjPrelude)] >> ELSE <<>>)
+             \o <<[op |-> "threads", ctx |-> 0, n |-> n, reps |-> reps, ast |-> TProgs[m], text |-> Render(TProgs[m])]>>]
 
 VARIABLE p
 Init == IF Part = "S" THEN p \in {[k |-> "S", h |-> h] : h \in {x \in Seqs(H) : Valid(x, {0, 1, 2})}}
